@@ -2,7 +2,7 @@
     (Gen/LockTable.v is rewritten by tools/locktable on every run), evaluated
     by vm_compute, and the two liftings instantiated with it. *)
 From Coq Require Import List String Bool Arith.
-From AGH Require Import Base.Conc Model.Guards Proofs.Conc Proofs.LockTable Gen.LockTable.
+From AGH Require Import Base.Conc Model.Guards Proofs.Conc Proofs.LockTable Proofs.LockTablePairs Gen.LockTable.
 Import ListNotations.
 Local Open Scope string_scope.
 Local Open Scope list_scope.
@@ -44,6 +44,39 @@ Lemma no_deadlock : forall progs,
   Forall (fun p => conforms_order checked_lock_order [] p = true) progs ->
   forall s, reachable (init progs) s -> ~ deadlocked s.
 Proof. exact (table_deadlock_free (rank_of ranks) checked_lock_order order_ranked). Qed.
+
+(** Explicit, pairwise: whatever the threads do elsewhere (they only have to
+    release nothing they do not hold; they may run through the sites listed as
+    findings), no interleaving reaches a state in which two distinct threads
+    are at conflicting access sites of the checked table. *)
+Lemma checked_sites_exclusive :
+  forall progs, Forall (fun p => balanced [] p = true) progs ->
+  forall s, reachable (init progs) s ->
+  forall pre t1 mid t2 post, threads s = pre ++ t1 :: mid ++ t2 :: post ->
+  forall p1 p2 d1 d2,
+    nth_error progs (List.length pre) = Some p1 ->
+    nth_error progs (List.length pre + S (List.length mid)) = Some p2 ->
+    p1 = d1 ++ rest t1 -> p2 = d2 ++ rest t2 ->
+  forall a1 a2, In a1 checked_accesses -> In a2 checked_accesses ->
+    a_field a1 = a_field a2 -> (a_write a1 || a_write a2) = true ->
+    subset_held (a_held a1) (held_after [] d1) = true ->
+    subset_held (a_held a2) (held_after [] d2) = true ->
+    False.
+Proof. exact (sites_exclusive ro checked_accesses accesses_guarded). Qed.
+
+(** Every cycle of the acquired-while-held relation extracted from the source,
+    re-entrant acquisitions included, goes through a pair listed as a known
+    finding. *)
+(** [order_ranked] with [checked_lock_order] unfolded, re-evaluated rather than
+    converted (the unifier would otherwise normalise the table symbolically) *)
+Lemma order_ranked_unfolded :
+  forallb (order_ok (rank_of ranks)) (checked_order known_keys lock_order) = true.
+Proof. vm_compute. reflexivity. Qed.
+
+Lemma lock_cycles_listed :
+  forall c, incl c lock_order -> cycle c ->
+  exists o, In o c /\ listed known_keys (order_key o) = true.
+Proof. exact (only_listed_cycles (rank_of ranks) known_keys lock_order order_ranked_unfolded). Qed.
 
 (** Non-vacuity on the real table: a thread shaped like POST /control/clients/add
     (control lock, client-storage mutex, update an index map, release) conforms. *)
